@@ -137,6 +137,16 @@ def oracle_batch(ver, requests):
     cmd = [interp(ver), os.path.join(VERIF, "oracle", "ref_main.py"), "server"]
     data = "\n".join(json.dumps(r) for r in requests) + "\n"
     p = subprocess.run(cmd, input=data.encode("ascii"), env=base_env(host=False), stdout=subprocess.PIPE, stderr=subprocess.PIPE, cwd=VERIF)
+    if p.returncode != 0 and len(requests) > 1:
+        # the interpreter itself died on one of the requests (e.g. Python 2.7 aborts on a malformed code object):
+        # ask one request per process so that the culprit is identified and the others are still answered
+        out = []
+        for r in requests:
+            try:
+                out.extend(oracle_batch(ver, [r]))
+            except RuntimeError as e:
+                out.append({"error": "InterpreterDied: " + str(e)[-200:].replace("\n", " ")})
+        return out
     if p.returncode != 0:
         raise RuntimeError("oracle server %s failed: %s" % (ver, p.stderr.decode("utf-8", "replace")[-1500:]))
     lines = [l for l in p.stdout.decode("ascii").splitlines() if l.strip()]
